@@ -2463,6 +2463,7 @@ class LinearGAM(GAM):
             link='identity',
             max_iter=max_iter,
             tol=tol,
+            callbacks=callbacks,
             fit_intercept=fit_intercept,
             verbose=verbose,
             **kwargs,
